@@ -34,12 +34,13 @@ def parse(text):
                             parse_constant=lambda c: (_ for _ in ()).throw(ValueError(c))))
 
 
-def dumps(node, ensure_ascii=False):
+def dumps(node, ensure_ascii=False, sep=(',', ':')):
+    """sep: item and key separators - (',', ':') is mongod's compact form, (', ', ': ') the form of jq -c / Python / pretty printers."""
     t, x = node
     if t == 'obj':
-        return '{' + ','.join(json.dumps(k, ensure_ascii=ensure_ascii) + ':' + dumps(v, ensure_ascii) for k, v in x) + '}'
+        return '{' + sep[0].join(json.dumps(k, ensure_ascii=ensure_ascii) + sep[1] + dumps(v, ensure_ascii, sep) for k, v in x) + '}'
     if t == 'arr':
-        return '[' + ','.join(dumps(v, ensure_ascii) for v in x) + ']'
+        return '[' + sep[0].join(dumps(v, ensure_ascii, sep) for v in x) + ']'
     if t == 'str':
         return json.dumps(x, ensure_ascii=ensure_ascii)
     if t == 'num':
